@@ -44,6 +44,11 @@ CLAIMED = {
         technique="deterministic simulation: generated applications (host sub-apps, HTTP and WebSocket routes) served by the real App on the simulated network to 1..4 concurrent keep-alive connections; reference first-match router over an independent DP glob matcher",
         text="Seeded generation of applications and request sequences (Host absent/exact/wildcard/with port/non-matching; paths matching several, one or no routes; queries; upgrade requests) with every handler answering its identity, observed at every position of a connection's history and under concurrency and seeded schedules; the answer must be the reference router's. Dominated by seeded configuration/input generation (stated in the evidence); sampling, not enumeration.",
         note="Trusted: the reference router and DP glob matcher; threaded runtime only; origin-form targets."),
+    "C07": dict(
+        level="exploration", design="§6 C07",
+        technique="deterministic simulation: (a) Response serialisation checked by a strict reference grammar and parsed back over a scripted reader (every split point); (b)(c) the real Client inside the simulator against scripted conforming servers on port 80 of simulated hosts, all chunk compositions for bodies <= 6 bytes, stream segmentations, redirect chains across hosts",
+        text="All 63 compositions x 2 hex cases of chunked bodies up to 6 bytes are enumerated against the real Client; seeded cases cover responses over all 39 status codes / 0..40 headers / Set-Cookie attribute subsets / bodies to 64 KiB (serialise, strict grammar, parse back under every split point of messages <= 600 bytes), the Client against Content-Length / chunked / close-delimited / body-less responses from closing and keep-alive servers under segmentation, and redirect chains 0..5 over {301,302,307} with relative and absolute Location across 4 simulated hosts.",
+        note="Trusted: reference grammar/servers; RFC 2616 reason phrases accepted for 413/414/416; servers key on the path (query ignored)."),
     "C08": dict(
         level="exploration", design="§6 C08",
         technique="deterministic simulation: real ThreadPool under the humsim baton scheduler, seeded random/sticky/PCT/round-robin schedules, real panics, stuck detection",
